@@ -1237,4 +1237,44 @@ theorem adjR_eq_map (e : Env) (L : Array Int) : adjR e L = fun s => (adjSR e L s
 
 end graph
 
+section lsubfinal
+variable {i : Input}
+
+/-- the rows the search appends to `lsub` (array level, before the supernode-boundary part moves them) -/
+theorem search_lsub (h : wfIn i = true) :
+    ∃ st', search i.env (fuelBound i) (colRows i.lsubCol) i.st0 = some st' ∧
+      (slice st'.lsub (rd i.xlsub i.jcol) st'.nextl).Nodup ∧
+      (∀ r, r ∈ slice st'.lsub (rd i.xlsub i.jcol) st'.nextl ↔
+        (0 ≤ r ∧ r < i.m ∧ rd i.perm_r r = EMPTY ∧ mk2 i.env st' r = i.jcol)) ∧
+      (∀ x, 0 ≤ x → x < rd i.xlsub i.jcol → rd st'.lsub x = rd i.lsub x) ∧
+      rd i.xlsub i.jcol ≤ st'.nextl ∧ st'.nextl ≤ st'.lsub.size := by
+  have hE := wfIn_env h
+  have hR := wfIn_root h
+  obtain ⟨st', post', hs, hR', _, _⟩ := search_spec hE (adj := adjR i.env i.lsub) (fun s h1 h2 => adjR_eq _ _ s h1 h2)
+    (wfIn_fuel h) (colRows i.lsubCol) i.st0 _ hR (wfIn_unpack h).2.2.2.2.2.2.2
+  refine ⟨st', hs, hR'.ok.app.nodup, fun r => ⟨fun hr => hR'.ok.app.rows r hr, fun ⟨a, b, c, d⟩ => hR'.ma r a b d c⟩,
+    hR'.ok.pre, hR'.ok.nextl, ?_⟩
+  -- the appended rows are distinct unpivoted rows: they fit
+  have h1 : ((slice st'.lsub (rd i.xlsub i.jcol) st'.nextl).map Int.toNat).Nodup := by
+    refine Nodup.map_on ?_ hR'.ok.app.nodup
+    intro a ha b hb hab
+    have := (hR'.ok.app.rows a ha).1; have := (hR'.ok.app.rows b hb).1; omega
+  have h2 : (slice st'.lsub (rd i.xlsub i.jcol) st'.nextl).map Int.toNat ⊆ unpivoted i.m i.perm_r := by
+    intro t ht
+    obtain ⟨r, hr, rfl⟩ := mem_map.mp ht
+    obtain ⟨a, b, c, _⟩ := hR'.ok.app.rows r hr
+    unfold unpivoted
+    simp only [mem_filter, mem_range, decide_eq_true_eq]
+    exact ⟨by have : i.env.m = i.m := rfl; omega, by rw [Int.toNat_of_nonneg a]; exact c⟩
+  have h3 := (List.subperm_of_subset h1 h2).length_le
+  rw [length_map, slice_length] at h3
+  have := hR'.ok.app.cap
+  have := hR'.ok.nextl
+  have : i.env.perm_r = i.perm_r := rfl
+  have : i.env.m = i.m := rfl
+  simp only [*] at *
+  omega
+
+end lsubfinal
+
 end Slu.ColDfs
